@@ -93,6 +93,13 @@ Add(o, a, s, e, l) ==
          ELSE heap' = [heap EXCEPT ![o] = AddTo(@, a, s, e, l)] /\ out' = "ok"
     /\ Emit("add", <<o, a, s, e, l>>)
 
+(* add_timeline / add_annotation: a whole pyannote object = one add per (non-empty) segment; items = set of <<s, e, label>> *)
+AddMany(op, o, a, items) ==
+    /\ o \in Live
+    /\ heap' = [heap EXCEPT ![o] = AddAll(@, {<<a, it[1], it[2], it[3]>> : it \in items})]
+    /\ out' = "ok"
+    /\ Emit(op, <<o, a, items>>)
+
 AddAnnotator(o, a) ==
     /\ o \in Live
     /\ heap' = [heap EXCEPT ![o].ann = @ \cup {a}]
